@@ -103,4 +103,9 @@ def spellings(rng, e, drive, vol_label, cur_dir='$', cur_drive=0, cur_vol=None):
     if e.dir == cur_dir:
         out.append(':%s.%s' % (dv, flip(e.name)))
     out.append(':%s.%s.%s' % (dv, e.dir, flip(e.name)))
+    if vol_label == 'A':
+        # on an Opus disc the drive number alone means volume A
+        out.append(':%d.%s.%s' % (drive, e.dir, flip(e.name)))
+        if drive == cur_drive and cur_vol is None and e.dir != '-':
+            out.append('%s.%s' % (e.dir, flip(e.name)))
     return out
